@@ -23,7 +23,8 @@ class ElitismStep(GeneticStep):
         target_size: int,
         generation: int,
     ) -> Iterator[Individual]:
+        population = list(population)
         evaluator.evaluate(problem, population)
         # TODO: We do not need to sort here.
-        new_population = sort_population(list(population), problem)
+        new_population = sort_population(population, problem)
         yield from new_population[:target_size]
